@@ -145,3 +145,49 @@ func VerifParseFloatValue() {
 		vReach("decimal")
 	}
 }
+
+// VerifAppendFloatGrid: concrete sweep (enumeration, no solver: the FP theory does not get through
+// AppendFloat's scaling within the budget) over f = +-m * 10^e for 1 <= m < LIM and a set of decimal
+// exponents that reach the extremes of the exponent estimate, with prec in PMIN..PMAX: the output
+// is a well-formed literal with the sign of f that parses back to f within the requested digits.
+func VerifAppendFloatGrid() {
+	lim := vParam("LIM", 100)
+	m := vRange("m", 1, lim-1)
+	// decimal exponents: every one in -30..30 (all positions inside a binade), then the extremes
+	var e int
+	if ei := vRange("e", 0, 66); ei <= 60 {
+		e = ei - 30
+	} else {
+		e = []int{-300, -60, 49, 100, 200, 300}[ei-61]
+	}
+	var prec int
+	if vParam("PSET", 0) != 0 {
+		prec = []int{3, 10, 17, 18}[vRange("prec", 0, 3)]
+	} else {
+		prec = vRange("prec", vParam("PMIN", 3), vParam("PMAX", 18))
+	}
+	f := float64(m) * math.Pow(10, float64(e))
+	if vBool("neg") {
+		f = -f
+	}
+	out := AppendFloat([]byte{'#'}, f, prec)
+	vAssert(len(out) >= 2 && out[0] == '#', "prefix-not-preserved")
+	neg, mant, exp, ok := refLiteral(out[1:])
+	vAssert(ok, "appendfloat-malformed-literal")
+	if !ok {
+		return
+	}
+	vAssert(neg == (f < 0), "appendfloat-sign")
+	got := float64(mant) * math.Pow(10, float64(exp))
+	if neg {
+		got = -got
+	}
+	// truncation to prec+1 significant digits loses less than one unit of the last kept digit
+	rel := math.Abs(got-f) / math.Abs(f)
+	digits := prec + 1
+	if digits > 15 {
+		digits = 15 // float64 arithmetic of this comparison itself
+	}
+	vAssert(rel <= 2*math.Pow(10, float64(1-digits)), "appendfloat-value-off")
+	vReach("grid")
+}
